@@ -34,7 +34,7 @@ pub const PROTOCOL: [(&str, &str); 9] = [("Pedersen", "pedersen"), ("RangeCheck"
 pub const ALPHABET: [&str; 11] = ["Pedersen", "RangeCheck", "Bitwise", "EcOp", "Poseidon", "SegmentArena", "RangeCheck96", "AddMod", "MulMod", "GasBuiltin", "System"];
 
 #[derive(Clone, Copy, PartialEq, Eq, Debug)]
-pub enum Use { None, Pedersen, Bitwise, Poseidon }
+pub enum Use { None, Pedersen, Bitwise, Poseidon, WideImmediate }
 
 /// The Sierra text of the generated contract (one function, index 0).
 pub fn contract_sierra(sig: &[&str], unpaid: Use) -> String {
@@ -46,10 +46,23 @@ pub fn contract_sierra(sig: &[&str], unpaid: Use) -> String {
     let mut distinct: Vec<&str> = vec![];
     for b in sig { if !distinct.contains(b) { distinct.push(b); } }
     for b in &distinct { writeln!(s, "type {b} = {b};").unwrap(); }
+    // P - 1 = 3618502788666131213697322783095070105623107215331596699973092056135872020480
+    const LO: &str = "-3618502788666131213697322783095070105623107215331596699973092056135872020480";
+    const MID_M1: &str = "-3618502788666131213697322783095070105623107215331596699973092056135872020353";
+    const MID: &str = "-3618502788666131213697322783095070105623107215331596699973092056135872020352";
+    const V: &str = "-3618502788666131213697322783095070105623107215331596699973092056135872020280";
+    const HI: &str = "-3618502788666131213697322783095070105623107215331596699973092056135872020225";
+    let wide = unpaid == Use::WideImmediate && sig.contains(&"RangeCheck");
+    if wide {
+        writeln!(s, "type BI = BoundedInt<{LO}, {HI}>;\ntype BILo = BoundedInt<{LO}, {MID_M1}>;\ntype BIHi = BoundedInt<{MID}, {HI}>;\ntype CBI = Const<BI, {V}>;").unwrap();
+    }
     s.push_str("libfunc redeposit_gas = redeposit_gas;\nlibfunc felt_one = felt252_const<1>;\nlibfunc u128_one = u128_const<1>;\n");
     s.push_str("libfunc st_felt = store_temp<felt252>;\nlibfunc st_u128 = store_temp<u128>;\nlibfunc dup_felt = dup<felt252>;\nlibfunc dup_u128 = dup<u128>;\n");
     s.push_str("libfunc drop_felt = drop<felt252>;\nlibfunc drop_u128 = drop<u128>;\n");
     for (ty, decl) in [("Pedersen", "libfunc pedersen = pedersen;\n"), ("Bitwise", "libfunc bitwise = bitwise;\n"), ("Poseidon", "libfunc hades = hades_permutation;\n")] { if sig.contains(&ty) { s.push_str(decl); } }
+    if wide {
+        writeln!(s, "libfunc bi_const = const_as_immediate<CBI>;\nlibfunc st_bi = store_temp<BI>;\nlibfunc constrain = bounded_int_constrain<BI, {MID}>;\nlibfunc drop_lo = drop<BILo>;\nlibfunc drop_hi = drop<BIHi>;\nlibfunc align = branch_align;").unwrap();
+    }
     s.push_str("libfunc mk_tuple = struct_construct<TupleSpan>;\nlibfunc mk_ok = enum_init<PanicResult, 0>;\nlibfunc st_res = store_temp<PanicResult>;\n");
     for b in &distinct { writeln!(s, "libfunc st_{b} = store_temp<{b}>;").unwrap(); }
     let k = sig.len();
@@ -74,18 +87,37 @@ pub fn contract_sierra(sig: &[&str], unpaid: Use) -> String {
             writeln!(s, "u128_one() -> ([{c}]);\nst_u128([{c}]) -> ([{c}]);\ndup_u128([{c}]) -> ([{c}], [{d}]);\nbitwise([{}], [{c}], [{d}]) -> ([{p2}], [{x}], [{y}], [{z}]);\ndrop_u128([{x}]) -> ();\ndrop_u128([{y}]) -> ();\ndrop_u128([{z}]) -> ();", cur[p]).unwrap();
             cur[p] = p2;
         },
+        Use::WideImmediate => {}
         Use::Poseidon => if let Some(p) = sig.iter().position(|b| *b == "Poseidon") {
             let (c, d, e, p2, x, y, z) = (fresh(), fresh(), fresh(), fresh(), fresh(), fresh(), fresh());
             writeln!(s, "felt_one() -> ([{c}]);\nst_felt([{c}]) -> ([{c}]);\ndup_felt([{c}]) -> ([{c}], [{d}]);\ndup_felt([{c}]) -> ([{c}], [{e}]);\nhades([{}], [{c}], [{d}], [{e}]) -> ([{p2}], [{x}], [{y}], [{z}]);\ndrop_felt([{x}]) -> ();\ndrop_felt([{y}]) -> ();\ndrop_felt([{z}]) -> ();", cur[p]).unwrap();
             cur[p] = p2;
         },
     }
-    let (a, r) = (fresh(), fresh());
-    writeln!(s, "mk_tuple([{k}]) -> ([{a}]);\nmk_ok([{a}]) -> ([{r}]);").unwrap();
-    for (i, b) in sig.iter().enumerate() { writeln!(s, "st_{b}([{}]) -> ([{}]);", cur[i], cur[i]).unwrap(); }
-    writeln!(s, "st_res([{r}]) -> ([{r}]);").unwrap();
-    let rets: Vec<String> = cur.iter().map(|v| format!("[{v}]")).chain([format!("[{r}]")]).collect();
-    writeln!(s, "return({});", rets.join(", ")).unwrap();
+    let tail = |s: &mut String, cur: &Vec<usize>, a: usize, r: usize| {
+        writeln!(s, "mk_tuple([{k}]) -> ([{a}]);\nmk_ok([{a}]) -> ([{r}]);").unwrap();
+        for (i, b) in sig.iter().enumerate() { writeln!(s, "st_{b}([{}]) -> ([{}]);", cur[i], cur[i]).unwrap(); }
+        writeln!(s, "st_res([{r}]) -> ([{r}]);").unwrap();
+        let rets: Vec<String> = cur.iter().map(|v| format!("[{v}]")).chain([format!("[{r}]")]).collect();
+        writeln!(s, "return({});", rets.join(", ")).unwrap();
+    };
+    if wide {
+        // a range split whose emitted code needs the immediate 2^128 - MID, which is >= PRIME: the published
+        // bytecode has to hold it reduced
+        let p = sig.iter().position(|b| *b == "RangeCheck").unwrap();
+        let (c, rc2, lo, hi) = (fresh(), fresh(), fresh(), fresh());
+        writeln!(s, "bi_const() -> ([{c}]);\nst_bi([{c}]) -> ([{c}]);\nconstrain([{}], [{c}]) {{ fallthrough([{rc2}], [{lo}]) WideHi([{rc2}], [{hi}]) }};", cur[p]).unwrap();
+        cur[p] = rc2;
+        writeln!(s, "align() -> ();\ndrop_lo([{lo}]) -> ();").unwrap();
+        let (a, r) = (fresh(), fresh());
+        tail(&mut s, &cur, a, r);
+        writeln!(s, "WideHi:\nalign() -> ();\ndrop_hi([{hi}]) -> ();").unwrap();
+        let (a, r) = (fresh(), fresh());
+        tail(&mut s, &cur, a, r);
+    } else {
+        let (a, r) = (fresh(), fresh());
+        tail(&mut s, &cur, a, r);
+    }
     let params: Vec<String> = sig.iter().enumerate().map(|(i, b)| format!("[{i}]: {b}")).chain([format!("[{k}]: Span")]).collect();
     let ret_tys: Vec<String> = sig.iter().map(|b| b.to_string()).chain(["PanicResult".to_string()]).collect();
     writeln!(s, "gen::gen::__wrapper__f@0({}) -> ({});", params.join(", "), ret_tys.join(", ")).unwrap();
@@ -133,6 +165,8 @@ pub fn accepted_class_defect(program: &Program, eps: &ContractEntryPoints, casm:
             entry_fns.push((kind, f.id.clone()));
         }
     }
+    // C19: "every bytecode word is a canonical field element"
+    if let Some(w) = casm.bytecode.iter().position(|w| w.value >= casm.prime) { return Some(("C19", format!("bytecode word #{w} = {:#x} is not a canonical field element", casm.bytecode[w].value))); }
     // C19: "the class hashes are stable under JSON round-trips"
     match serde_json::to_string(casm).ok().and_then(|js| serde_json::from_str::<CasmContractClass>(&js).ok()) {
         None => return Some(("C19", "the compiled class does not survive printing as JSON and loading it again".into())),
@@ -242,12 +276,12 @@ fn __verif_n_class_gen_signatures() {
     // first failure per (property, kind)
     let mut fails: std::collections::BTreeMap<(&'static str, String), (String, String)> = Default::default();
     for sig in &sigs {
-        for unpaid in [Use::None, Use::Pedersen, Use::Bitwise, Use::Poseidon] {
-            let needs = match unpaid { Use::None => None, Use::Pedersen => Some("Pedersen"), Use::Bitwise => Some("Bitwise"), Use::Poseidon => Some("Poseidon") };
+        for unpaid in [Use::None, Use::Pedersen, Use::Bitwise, Use::Poseidon, Use::WideImmediate] {
+            let needs = match unpaid { Use::None => None, Use::Pedersen => Some("Pedersen"), Use::Bitwise => Some("Bitwise"), Use::Poseidon => Some("Poseidon"), Use::WideImmediate => Some("RangeCheck") };
             if needs.is_some_and(|n| !sig.contains(&n)) { continue; }
             let text = contract_sierra(sig, unpaid);
             let Some(program) = parse_canonical(&text) else {
-                fails.entry(("C19", "harness".into())).or_insert((format!("{sig:?} {unpaid:?}"), "generated Sierra does not parse (harness)".into()));
+                fails.entry(("C19", "harness".into())).or_insert((format!("{sig:?} {unpaid:?}"), format!("generated Sierra does not parse (harness): {}", text.replace('\n', " | "))));
                 continue;
             };
             cases += 1;
@@ -258,11 +292,11 @@ fn __verif_n_class_gen_signatures() {
                 Outcome::Accepted => {
                     accepted += 1;
                     if !is_protocol_shaped(sig) { fails.entry(("C19", "shape".into())).or_insert((input.clone(), "accepted although the parameters are not [builtins in protocol order.., GasBuiltin, System, calldata]".into())); }
-                    if unpaid != Use::None { fails.entry(("C04", "unpaid".into())).or_insert((input, "accepted although the entry point uses a priced builtin that neither the caller's fixed charge nor a withdraw_gas pays for".into())); }
+                    if unpaid != Use::None && unpaid != Use::WideImmediate { fails.entry(("C04", "unpaid".into())).or_insert((input, "accepted although the entry point uses a priced builtin that neither the caller's fixed charge nor a withdraw_gas pays for".into())); }
                 }
                 Outcome::Rejected(e) => {
                     rejected += 1;
-                    if is_protocol_shaped(sig) && unpaid == Use::None { fails.entry(("C19", "complete".into())).or_insert((input, format!("a protocol-shaped entry point that pays for everything it uses was rejected: {e}"))); }
+                    if is_protocol_shaped(sig) && (unpaid == Use::None || unpaid == Use::WideImmediate) { fails.entry(("C19", "complete".into())).or_insert((input, format!("a protocol-shaped entry point that pays for everything it uses was rejected: {e}"))); }
                 }
             }
         }
